@@ -59,6 +59,7 @@ pub struct Printer<'a> {
     col: u64, // characters emitted since the last newline
     pending: Vec<NodeId>,
     pub pos: Vec<Option<(u64, u64)>>,
+    pub tok_off: Vec<Option<u64>>,
     pub feats: Vec<Vec<String>>,
     pub spaces: Vec<Space>,
     prev_word: bool,
@@ -69,6 +70,7 @@ pub struct Printer<'a> {
     global_feats: BTreeSet<String>,
     cur_top: usize,
     in_slot: bool,
+    no_flip: BTreeSet<NodeId>,
 }
 
 const COMMENTS: &[&str] = &["# note", "# ünï ✓ cömment", "#", "# print(\"not code\") @ ~", "#\ttabbed # twice"];
@@ -86,6 +88,7 @@ impl<'a> Printer<'a> {
             col: 0,
             pending: vec![],
             pos: vec![None; prog.n_nodes],
+            tok_off: vec![None; prog.n_nodes],
             feats: vec![vec![]; prog.n_nodes],
             spaces: vec![],
             prev_word: false,
@@ -96,6 +99,7 @@ impl<'a> Printer<'a> {
             global_feats: BTreeSet::new(),
             cur_top: 0,
             in_slot: false,
+            no_flip: BTreeSet::new(),
         }
     }
 
@@ -254,6 +258,9 @@ impl<'a> Printer<'a> {
             for n in std::mem::take(&mut self.pending) {
                 if self.pos[n].is_none() {
                     self.pos[n] = Some((self.line, self.col + 1));
+                    if !self.in_slot && !self.no_flip.contains(&n) {
+                        self.tok_off[n] = Some(self.out.len() as u64);
+                    }
                     self.feats[n] = f.clone();
                 }
             }
@@ -529,7 +536,12 @@ impl<'a> Printer<'a> {
                         }
                     }
                     Callee::Returned(inner, _) => self.expr(inner),
-                    Callee::Anon(id) => self.fn_lit(*id),
+                    Callee::Anon(id) => {
+                        for n in self.pending.clone() {
+                            self.no_flip.insert(n);
+                        }
+                        self.fn_lit(*id)
+                    }
                 }
                 self.args(args);
             }
@@ -632,7 +644,11 @@ impl<'a> Printer<'a> {
                             t.push('}');
                             // nodes inside the slot: positions are slot-relative in seed (K1);
                             // they are recorded as the literal's position for information only
+                            let before = self.pending.len();
                             collect_nodes(x, &mut self.pending);
+                            for n in self.pending[before..].to_vec() {
+                                self.no_flip.insert(n);
+                            }
                         }
                     }
                 }
@@ -765,7 +781,30 @@ impl<'a> Printer<'a> {
         self.tok("}", false, false, 0);
     }
 
+    // layout-only filler: a discarded string assignment earlier on the same line,
+    // so that multi-byte and multi-line text precedes the statement's tokens
+    fn filler(&mut self) {
+        if !(self.lay.enabled && self.at_line_start && !self.in_slot) || !self.rng.chance(1, 7) {
+            return;
+        }
+        let t = match self.rng.below(4) {
+            0 => "_ = \"żółw ✓ 日本\"; ".to_string(),
+            1 if self.lay.rawnl => "_ = \"first\nsecond ü\"; ".to_string(),
+            2 => "_ = \"é\";\t".to_string(),
+            _ => "_ = [\"𝄞\", \"x\"]; ".to_string(),
+        };
+        if t.contains('\n') {
+            self.global_feats.insert("multiline-string".into());
+        }
+        self.raw(&t);
+        if t.contains('\n') {
+            self.line_feats.insert("multiline-string-before".into());
+        }
+        self.line_feats.insert("same-line-stmt".into());
+    }
+
     pub fn stmt(&mut self, s: &Stmt) {
+        self.filler();
         match &s.kind {
             StmtKind::Expr(e) => self.expr(e),
             StmtKind::Decl(p, e) => {
